@@ -80,7 +80,12 @@ theorem tmp_snapshot_not_offered (fs : FS) (l sz : Nat) (h : (reopen fs).rdb = s
   rw [← parseRdbName_some hp]; exact he
 
 /-- … and the writers give a file the committed name only in the step in which
-    the last announced byte has been written. -/
+    the last announced byte has been written. In the model `r.data` is what has
+    been WRITTEN to the temporary file; that the code's own accounting (`pumped`,
+    which `closeRdb` compares with the announced size) counts a chunk only after
+    its write succeeded is tied by the harness: scripts stop the writer between
+    the reception of a chunk and its write (`drdbx`) and make the write of a
+    chunk fail (`drdbf`) — for the model both are a close without the chunk. -/
 theorem snapshot_committed_only_when_complete (s : Disk) (op : DOp) (a b : FName)
     (h : FsOp.rename a b ∈ fsOps s op) :
     ∃ r chunk, op = .rdbAppend chunk ∧ s.rdb = some r ∧ r.writing = true ∧
